@@ -279,9 +279,12 @@ class _Rewriter(ast.NodeTransformer):
             names = [e for e in g.target.elts]
             if not all(isinstance(e, ast.Name) for e in names):
                 raise ExtractionError(f"{self.fname}: nested comprehension target")
+            ids = [e.id for e in names]
+            # tuple unpacking lets a name repeat (``_, _, x``): the last binding wins
+            uniq = [(i if i not in ids[j + 1:] else f"__dup{j}") for j, i in enumerate(ids)]
             inner = ast.Lambda(
                 args=ast.arguments(
-                    posonlyargs=[], args=[ast.arg(arg=e.id) for e in names], kwonlyargs=[], kw_defaults=[], defaults=[]
+                    posonlyargs=[], args=[ast.arg(arg=i) for i in uniq], kwonlyargs=[], kw_defaults=[], defaults=[]
                 ),
                 body=body,
             )
